@@ -3,6 +3,7 @@ import ast
 import glob
 import json
 import os
+import random
 import re
 import sys
 
@@ -368,8 +369,10 @@ def sect_spans(text, pattern):
 
 def sect_chunk(text, pattern, k):
     spans = sect_spans(text, pattern)
-    if spans is None or not (1 <= k <= len(spans)):
+    if spans is None or not (0 <= k <= len(spans)):
         return None
+    if k == 0:                      # the prologue: from the start of the file to the first separator
+        return 0, (spans[0][0] if spans else len(text))
     start = spans[k - 1][1]
     end = spans[k][0] if k < len(spans) else len(text)
     return start, end
@@ -439,6 +442,12 @@ def run_real_sectioned(c):
     out = {"raised": None, "feedback": [], "success": None, "tree": None, "returned": None}
     n0 = m0 = 0
     try:
+        if s.get("prior"):
+            # an EARLIER separation of another text of the same file, walked to an independent section with lines
+            # before it and NOT stopped: nothing of it may reach the numbering of the new separation
+            set_source(s["prior"]["text"], filename=filename, sections=True, **kw)
+            for _ in range(s["prior"]["steps"]):
+                next_section(**kw)
         if s["entry"] == "set_source":
             set_source(s["text"], filename=filename, sections=True, **kw)
         else:
@@ -528,6 +537,45 @@ def sect_count(count, c):
     if before.count("\n") != cpython_lines_before(s["text"], len(before)):
         count("sectioned:lone-CR-before-section")
     count("sectioned:entry=" + s["entry"])
+    if s.get("prior"):
+        count("sectioned:earlier-separation-still-open" + (":prologue" if s["k"] == 0 else ""))
+
+
+PRIOR_TEXTS = ["import math\nx = 0\n##### Part 1\na = 1\n##### Part 2\nb = 2\n",
+               "p = 0\n\n\nq = 1\n##### Part 1\na = 1\n",
+               "##### Part 1\na = 1\nb = 2\nc = 3\n##### Part 2\nd = 4\n##### Part 3\ne = 5\n"]
+
+
+def prior_sect_case(rng):
+    """A second separation started while an earlier one is still open (no stop_sections() in between), verified at
+    its prologue (section 0, which registers no offset of its own) or at a later section."""
+    for _ in range(50):
+        s = gen_sectioned(rng)
+        if s["pattern"] == DEFAULT_SECTION_PATTERN:
+            break
+    else:
+        return None
+    s["entry"] = "set_source" if rng.random() < 0.8 else "separate"
+    if rng.random() < 0.7:
+        s["k"] = 0
+        if rng.random() < 0.85:
+            lead = [rng.choice(SECT_STMTS[:3]) for _ in range(rng.randint(0, 2))] + [rng.choice(SECT_ERRORS[:5])]
+            s["text"] = "\n".join(lead) + "\n" + s["text"]
+    prior = rng.choice(PRIOR_TEXTS)
+    s["prior"] = {"text": prior, "steps": rng.randint(1, prior.count("#####"))}
+    return sect_fill({"sect": s, "filename": rng.choice(FILENAMES), "style": rng.choice([0, 0, 2, 2, 1, 3]),
+                      "explicit": False})
+
+
+def make_prior_sectioned(n):
+    """own PRNG (derived from the seed) so that the older streams stay what they were"""
+    rng = random.Random("c12-prior-separation-%s" % os.environ.get("VERIF_SEED", "0"))
+    out = []
+    for _ in range(n):
+        c = prior_sect_case(rng)
+        if c is not None:
+            out.append(c)
+    return out
 
 
 def make_sectioned(rng, n):
@@ -561,6 +609,7 @@ def make_cases(rng, n):
             if cc is not None:
                 cases.append(cc)
     cases += make_sectioned(rng, max(300, n // 8))
+    cases += make_prior_sectioned(max(150, n // 16))
     for s in SPECIALS:
         cases.append({"code": s, "offset": rng.choice([0, 0, 3]), "filename": rng.choice(FILENAMES),
                       "explicit": rng.random() < 0.3})
